@@ -74,17 +74,27 @@ def decodeAgrees (b : Nat) : Bool :=
    | none => (x.isNaN || x.isInf || x.floor != x)) &&
   (floatOps.modEq x 2 0 == intBitOps.modEq b 2 0)
 
+/-- run-time link between the rounding the driver executes (`Float.round`, compared bit-exactly with the
+real code) and the rule the theorems are about (`ratRoundAway` on the exact value of the float): they
+agree on the float sum `s` (non-finite sums are skipped) -/
+def roundAgrees (s : Float) : Bool :=
+  match decodeRat (bitsOfFloat s), decodeRat (bitsOfFloat (roundHalfUp s)) with
+  | some q, some r => ratRoundAway q == r
+  | _, _ => true
+
 def handleExport (j : Json) : Json :=
   match getArr? j "rows" >>= parseRows, optBool j "reset", optBool j "update", (getStr? j "route").getD "file" with
   | some rows, some resetO, some updateO, route =>
     let motl := rows.map particleOfBits
     let (update, reset) :=
       if route == "mem" then (false, resetO.getD Gen.C04.convResetDefault)
+      else if route == "wrap" then (Gen.C04.writeUpdateDefault, Gen.C04.writeResetDefault)
       else if route == "conv" then (updateO.getD Gen.C04.em2sgUpdateDefault, resetO.getD Gen.C04.em2sgResetDefault)
       else (updateO.getD Gen.C04.writeUpdateDefault, resetO.getD Gen.C04.writeResetDefault)
     let tbl :=
       if route == "mem" then (toSgOpt floatOps resetO motl).map (fun rs => ({ cols := sgColumns, rows := rs.map (fun r => sgColumns.map r) } : SgTable Float))
       else if route == "conv" then em2sgOpt floatOps roundHalfUp updateO resetO motl
+      else if route == "wrap" then motlWriteOut floatOps roundHalfUp motl   -- Motl.write_out(path, "stopgap"): no keyword reaches write_out
       else writeOutOpt floatOps roundHalfUp updateO resetO motl
     let m := if update then motl.map (updateCoord roundHalfUp) else motl
     let mb := m.map particleBits
@@ -97,9 +107,11 @@ def handleExport (j : Json) : Json :=
       let n := mb.length
       let agree := mb.all (fun p => decodeAgrees p.subtomo_id) &&
         (List.range n).all (fun i => encodeNat (i + 1) == bitsOfFloat (i + 1).toFloat)
+      let ragree := !update || motl.all (fun p =>
+        roundAgrees (p.x + p.shift_x) && roundAgrees (p.y + p.shift_y) && roundAgrees (p.z + p.shift_z))
       let base := [("table", tableJson (tableBits t)), ("updated", motlJson mb), ("back", back),
                    ("eff", Json.mkObj [("reset", Json.bool reset), ("update", Json.bool update)]),
-                   ("decode_agrees", Json.bool agree)]
+                   ("decode_agrees", Json.bool agree), ("round_agrees", Json.bool ragree)]
       -- verified checker on the implementation's own output, against the (updated) particle list;
       -- parity and 1..N are decided on exactly decoded integers (`intBitOps`), not with float `mod`
       let chk (key : String) : List (String × Json) :=
